@@ -154,6 +154,8 @@ type Cfg struct {
 	Transport   int // 0 loopback TCP, 1 unix domain socket
 	ViaServer   int // 1: the connection is accepted by a qnet.TcpServer and the endpoint comes from its backlog channel
 	GCAfter     int // free mode: after Close returned drop every reference to the endpoint and force two GC cycles before the (late) peer starts reading
+	Reentrant   int // free mode: the LAST sender is driven by the inbound consumer (one reply per delivered packet, sent through pkt.Endpoint()), the LAST closer by the error-channel consumer (it calls Close on the error's endpoint)
+	BurstEvery  int // free mode: every sender pauses 3 ms after each BurstEvery packets (fill, drain, reuse)
 	Chunked     int // free mode: the peer writes its input as one byte stream cut into random chunks (frames share segments / span segments)
 }
 
@@ -181,7 +183,7 @@ func (c Cfg) Sx() Sx {
 	return List(Int(int64(c.Mode)), Int(int64(c.Codec)), Bool(c.Cipher), Int(int64(c.Ocap)), Int(int64(c.Icap)),
 		Int(int64(c.Ecap)), Bool(c.HasWriter), Bool(c.HasReader), ListOf(snd), ListOf(cls), ListOf(in),
 		Int(int64(c.PeerRead)), Int(int64(c.InConsumer)), Uint(c.Seed), ListOf(sc), Int(int64(c.CloseAfter)),
-		Int(int64(c.LateSend)), Ints(int64(c.FailAfter), int64(c.Immediate), int64(c.MaxProcs), int64(c.ReadTimeout), int64(c.LateInput), int64(c.WaitInput), int64(c.SmallBuf), int64(c.Transport), int64(c.ViaServer), int64(c.GCAfter), int64(c.Chunked)))
+		Int(int64(c.LateSend)), Ints(int64(c.FailAfter), int64(c.Immediate), int64(c.MaxProcs), int64(c.ReadTimeout), int64(c.LateInput), int64(c.WaitInput), int64(c.SmallBuf), int64(c.Transport), int64(c.ViaServer), int64(c.GCAfter), int64(c.Chunked), int64(c.Reentrant), int64(c.BurstEvery)))
 }
 
 func CfgOfSx(s Sx) Cfg {
@@ -219,6 +221,9 @@ func CfgOfSx(s Sx) Cfg {
 		}
 		if x.Len() > 10 {
 			c.Transport, c.ViaServer, c.GCAfter, c.Chunked = x.At(7).AsInt(), x.At(8).AsInt(), x.At(9).AsInt(), x.At(10).AsInt()
+		}
+		if x.Len() > 12 {
+			c.Reentrant, c.BurstEvery = x.At(11).AsInt(), x.At(12).AsInt()
 		}
 	}
 	return c
@@ -362,31 +367,33 @@ type Sim struct {
 	inputConsumed  int32 // reader.frame / reader.err events
 	rdClosed       atomic.Bool
 
-	results       [][][2]int // per sender: (id, code)
-	closeRes      []int      // per closer: 0 not returned, 1 returned, 3 panicked
-	panics        int32
-	inconcl       []string
-	stuck         int
-	stuckWhat     string
-	delivered     []int // ids received on inbound from this connection (by whoever consumed)
-	badEndpoint   int
-	foreignIn     int
-	errGot        int
-	errForeign    int
-	late          []int
-	closeBegan    atomic.Bool
-	current       int            // gated: ref of the thread released last (-1: environment step, -2: start-up)
-	parked        map[int64]bool // gated: goroutines parked inside connection code at the last quiescence
-	waited        bool           // finally() got past wg.Wait()
-	pumpAfterWait int            // pump events after that
-	finalCounters []int64
-	finalState    int64
-	finalDone     bool
-	dropped       bool      // the endpoint was dropped and collected (GCAfter)
-	noFin         int       // Terminated, no goroutine left, and the peer never saw end-of-stream
-	wakeSince     time.Time // when the reader last got a reason to wake (input written / read side shut down)
-	desync        int       // gated: arrivals that the serialization protocol cannot explain
-	rng           *Rng
+	results           [][][2]int // per sender: (id, code)
+	closeRes          []int      // per closer: 0 not returned, 1 returned, 3 panicked
+	panics            int32
+	inconcl           []string
+	stuck             int
+	stuckWhat         string
+	delivered         []int // ids received on inbound from this connection (by whoever consumed)
+	badEndpoint       int
+	foreignIn         int
+	errGot            int
+	errKind           int // kind of the terminal error (see noteErr)
+	statsAccessorsBad int
+	errForeign        int
+	late              []int
+	closeBegan        atomic.Bool
+	current           int            // gated: ref of the thread released last (-1: environment step, -2: start-up)
+	parked            map[int64]bool // gated: goroutines parked inside connection code at the last quiescence
+	waited            bool           // finally() got past wg.Wait()
+	pumpAfterWait     int            // pump events after that
+	finalCounters     []int64
+	finalState        int64
+	finalDone         bool
+	dropped           bool      // the endpoint was dropped and collected (GCAfter)
+	noFin             int       // Terminated, no goroutine left, and the peer never saw end-of-stream
+	wakeSince         time.Time // when the reader last got a reason to wake (input written / read side shut down)
+	desync            int       // gated: arrivals that the serialization protocol cannot explain
+	rng               *Rng
 }
 
 func goid() int64 {
@@ -740,7 +747,10 @@ func (sim *Sim) senderMain(i int) {
 		th.finished = true
 		sim.mu.Unlock()
 	}()
-	for _, p := range sim.cfg.Senders[i] {
+	for k, p := range sim.cfg.Senders[i] {
+		if be := sim.cfg.BurstEvery; be > 0 && sim.cfg.Mode == 0 && k > 0 && k%be == 0 {
+			time.Sleep(3 * time.Millisecond) // let the queue drain, then use it again
+		}
 		sim.point(PSendBegin, p.ID)
 		pkt := mkPacket(p)
 		code := 0
@@ -977,6 +987,23 @@ func (sim *Sim) noteErr(e error) {
 	defer sim.mu.Unlock()
 	if qe, ok := e.(*qnet.Error); ok && qe.Endpoint == fatchoy.Endpoint(sim.conn) {
 		sim.errGot++
+		// which error: 1 Close's ErrConnForceClose, 2 the error the harness passed to ForceClose, 3 a read error
+		switch qe.Err {
+		case qnet.ErrConnForceClose:
+			sim.errKind = 1
+		case errForced:
+			sim.errKind = 2
+		default:
+			sim.errKind = 3
+		}
+		// the error must be printable at any time (it outlives the connection's teardown)
+		if p, _ := Catch(func() {
+			if txt := qe.Error(); !strings.Contains(txt, qe.Endpoint.RemoteAddr()) {
+				sim.errKind += 10
+			}
+		}); p {
+			sim.errKind += 20
+		}
 	} else {
 		sim.errForeign++
 	}
@@ -1306,6 +1333,14 @@ func (sim *Sim) observed(enc codec.Encoder, oracle, inOracle []Sx) Sx {
 	} else {
 		st := sim.conn.Stats()
 		counters = Ints(st.Get(qnet.StatPacketsSent), st.Get(qnet.StatBytesSent), st.Get(qnet.StatPacketsRecv), st.Get(qnet.StatBytesRecv))
+		// the same through the other accessors of the library (Copy, Clone, reading twice, out of range)
+		cp, cl := st.Copy(), st.Clone()
+		if len(cp) != qnet.NumStat || cp[qnet.StatPacketsSent] != st.Get(qnet.StatPacketsSent) || cp[qnet.StatBytesSent] != st.Get(qnet.StatBytesSent) ||
+			cp[qnet.StatPacketsRecv] != st.Get(qnet.StatPacketsRecv) || cp[qnet.StatBytesRecv] != st.Get(qnet.StatBytesRecv) ||
+			cl.Get(qnet.StatBytesSent) != cp[qnet.StatBytesSent] || cl.Get(qnet.StatPacketsRecv) != cp[qnet.StatPacketsRecv] ||
+			st.Get(-1) != 0 || st.Get(qnet.NumStat) != 0 || st.Add(qnet.NumStat, 5) != 0 || st.Get(qnet.StatBytesSent) != cp[qnet.StatBytesSent] {
+			sim.statsAccessorsBad = 1
+		}
 		state, doneClosed = int64(sim.conn.VerifState()), sim.conn.VerifDoneClosed()
 	}
 	return List(
@@ -1317,8 +1352,8 @@ func (sim *Sim) observed(enc codec.Encoder, oracle, inOracle []Sx) Sx {
 		Ints(int64(garbage), b2i(sim.peerEOF.Load()), b2i(sim.peerErr.Load()), int64(sim.noFin), b2i(sim.peerReset.Load())), // 5
 		counters,       // 6
 		Ints(deliv...), // 7
-		Ints(int64(sim.badEndpoint), int64(sim.foreignIn)), // 8
-		Ints(int64(sim.errGot), int64(sim.errForeign)),     // 9
+		Ints(int64(sim.badEndpoint), int64(sim.foreignIn), int64(sim.statsAccessorsBad)), // 8
+		Ints(int64(sim.errGot), int64(sim.errForeign), int64(sim.errKind)),               // 9
 		Ints(cres...), // 10
 		Ints(int64(atomic.LoadInt32(&sim.panics)), state, b2i(doneClosed)), // 11
 		Ints(int64(ninc), int64(sim.stuck), int64(sim.pumpAfterWait)),      // 12 inconclusive observations, stuck state established, pump events after wg.Wait returned
